@@ -266,6 +266,30 @@ def rule_R14_4(ctx):
     return r
 
 
+def _places_feeding(f, operand, depth=0):
+    """Places read on the single-definition copy chain of an operand."""
+    out = []
+    if not mir.is_place_operand(operand) or depth > 8:
+        return out
+    pl = mir.op_place(operand)
+    out.append(pl)
+    if not pl[1]:
+        sd = f.single_def(pl[0])
+        if sd and sd[2] == "rv":
+            rv = sd[3]
+            if rv[0] == "use":
+                out.extend(_places_feeding(f, rv[1], depth + 1))
+            elif rv[0] in ("cfd",):
+                out.append(rv[1])
+            elif rv[0] == "ref":
+                out.append(rv[2])
+        else:
+            for (bb, idx, kind, payload) in f.defs().get(pl[0], []):
+                if kind == "rv" and payload[0] == "use":
+                    out.extend(_places_feeding(f, payload[1], depth + 1))
+    return out
+
+
 def rule_R14_5(ctx):
     import anchors
     prog = ctx.prog
@@ -305,17 +329,19 @@ def rule_R14_5(ctx):
                 continue
             n += 1
             src = ops.try_chain_source(f, c.args[0])
-            good = src is not None and src.res == ofn.path
             r.inst("%s: re-wraps %s as source-less" % (f.path, src.res if src else f.canon_op(c.args[0])))
-            if good:
+            # the hazard: the Value is the `.v` of an existing SourcedValue
+            # (whose `.source` is thereby dropped)
+            from_sv = False
+            for s_ in _places_feeding(f, c.args[0]):
+                for pr in s_[1]:
+                    if pr != "*" and pr[0] == "f" and len(pr) > 4 and pr[4] == SV and pr[3] == "v":
+                        from_sv = True
+            if not from_sv:
                 r.ok()
             else:
-                # constructors of fresh containers (rest lists/objects) are fine:
-                # their argument is a value built here, not a stored value
-                cp = f.canon_op(c.args[0])
-                fresh = cp[0][0] == "agg"
-                if fresh:
-                    r.ok()
+                if False:
+                    pass
                 else:
                     r.fail("%s | source dropped on store" % f.path,
                            "%s re-wraps a value that is not an operator "
